@@ -36,7 +36,13 @@ func Ranges(src search.NumericValuesSource) *RangeAggregation {
 }
 
 func (a *RangeAggregation) Fields() []string {
-	return a.src.Fields()
+	rv := a.src.Fields()
+	// the nested aggregations are fed from the same hits, so the
+	// fields they read have to be loaded as well
+	for _, agg := range a.aggregations {
+		rv = append(rv, agg.Fields()...)
+	}
+	return rv
 }
 
 func (a *RangeAggregation) AddRange(rang *NumericRange) *RangeAggregation {
